@@ -66,11 +66,11 @@ CHECKS = {
  'C02': dict(
    text='Machine-checked proof (Coq): WHOLE GRIDS - for every grid of a 3.0-family version with distinct metadata tags, distinct column names, per-column distinct metadata tags and rows holding one cell per column in column order, '
         'if every metadata value and every cell round-trips on its own then the JSON object the writer model emits is read back by the reader model as exactly that grid (C02_grid; induction over metadata, columns, rows, cells), '
-        'in particular for all grids over trees of lists / dicts of strings, URIs, Bins, markers, nulls, booleans, NA, Remove to any depth (C02_plain_grid). Per kind: for every scalar kind the text the JSON writer model emits is read back by the JSON reader model (the cascade of parse_embedded_scalar, '
+        'in particular for all grids over values that are leaves of any kind, lists, dicts or NESTED GRIDS (with metadata) of such values to any depth (C02_full_grid, C02_values: the relation jv). Per kind: for every scalar kind the text the JSON writer model emits is read back by the JSON reader model (the cascade of parse_embedded_scalar, '
         'one hand-written matcher per regex with the typos and flags of the source) as the same kind with the same content - for ANY string/URI/Bin/display-name/XStr/unit payload, '
         'for every valid date and time, for every date-time text isoformat() can produce with a whole-minute offset, and for numbers as the exact %f token; Remove is spelled x: under pre-3.0 and -: otherwise and both read back. '
         'Tied by tree-equality of the writer model with json.loads(hszinc.dump()) and value-equality of the reader model with hszinc.parse on the same documents.',
-   note='Nesting is proved for lists and dicts to any depth over leaves that round-trip (C02_nested; dicts with distinct keys that are not grid-like). PARTIAL: grids nested inside grids, 2.0-family versions and rows that leave cells out are not covered by the whole-grid theorem (correspondence + search cover them). Numbers never enter Coq as floats: %f formatting and float() are CPython oracles '
+   note='Nesting is proved for lists and dicts to any depth over leaves that round-trip (C02_nested; dicts with distinct keys that are not grid-like). PARTIAL: 2.0-family versions and rows that leave cells out are not covered by the whole-grid theorem (correspondence + search cover them). Numbers never enter Coq as floats: %f formatting and float() are CPython oracles '
         '(hypothesis f6_shape on the token, sampled on every run). json.dumps/json.loads, iso8601, pytz, XStr decoding are outside the model. A dict with keys meta, cols and rows is read as a grid (format ambiguity, excluded from the domain). '
         'Print Assumptions: closed under the global context.',
    technique='Coq proofs about regex-matcher models + extracted-model correspondence (writer trees, reader values) + round-trip search',
@@ -92,13 +92,13 @@ CHECKS = {
    technique='Coq proofs about the writer model + tree-equality correspondence + independent reader',
    design='DESIGN.md §3 C06'),
  'C01': dict(
-   text='Machine-checked proof (Coq): WHOLE GRIDS - for every version-3.0 grid without metadata, with any non-empty list of distinct column names, any number of rows and every cell a string, URI, finite number / quantity of the written shape, '
-        'valid date, time, null, marker, Remove, NA, boolean, plain reference, or a list or dict of such values nested to any depth, the text the model of the ZINC dumper writes is read back by the model of the reader\'s grid rule and of parse_grid '
-        '(version sniffing included) as exactly that grid (C01_grid_values, C01_grid_roundtrip_top; induction over rows, cells and nesting). Per kind, through the WHOLE per-version scalar alternation (pyparsing Or = longest match over 13 / 18 alternatives): '
-        'every code-point list as string / URI, every number (the date, time, date-time and extended-string rules that also start with digits never win), every date and time (the number rule reading the leading digits loses to the longer match), the letter scalars, NA over N, plain references. '
-        'Grid / column metadata, nested grids, date-times, coordinates, Bin, XStr, multi-grid documents and version 2.0 grids are decided by the tie (writer model = hszinc.dump text, reader model = hszinc.parse value, on generated grids) '
+   text='Machine-checked proof (Coq): THE GENERAL THEOREM for version 3.0 (C01_full_grid, C01_value_relation) - for every grid with or without grid and column metadata (marker tags and tags with values; distinct tag names), any non-empty list of distinct column names, '
+        'any number of rows, every cell and metadata value a string, URI, finite number / quantity of the written shape, valid date, time, null, marker, Remove, NA, boolean, reference with or without display name, Bin, coordinate, extended string (type names not starting with T F N M R I B C), or a list, dict or NESTED GRID (itself with metadata) of such values, '
+        'nested to any depth, the text the model of the ZINC dumper writes is read back by the model of the reader\'s grid rule, of parse_grid (version sniffing included) and of parser.parse (C01_document: trailing-newline normalisation, grid splitting) as exactly that grid. '
+        'By induction over metadata items, columns, rows, cells and nesting depth; every kind goes through the WHOLE per-version scalar alternation (pyparsing Or = longest match over 13 / 18 alternatives: the date, time, date-time and extended-string rules that also start with digits never win over a number, '
+        'the number rule reading leading digits loses to a date or time, NA wins over N). Date-times, multi-grid documents and version 2.0 grids are decided by the tie (writer model = hszinc.dump text, reader model = hszinc.parse value, on generated grids) '
         'and by the round-trip search on the implementation with a kind-strict comparator.',
-   note='PARTIAL: the whole-grid theorem covers metadata-free 3.0 grids over the kinds listed; the other kinds and grid / column metadata are proved per rule or covered by tie + search only. Number texts are CPython tokens (str(float) / float() are oracles), date-times are compared by instant, offset and zone name through pytz as oracle. '
+   note='PARTIAL: the general theorem covers 3.0 grids over the kinds listed (every kind but date-times); date-times, 2.0 grids and multi-grid documents are covered by tie + search only. Number texts are CPython tokens (str(float) / float() are oracles), date-times are compared by instant, offset and zone name through pytz as oracle. '
         'pyparsing itself is modelled by typed combinators (Or = longest match, first on ties; parse actions; no implicit whitespace skipping as hszinc configures it). Print Assumptions: closed under the global context.',
    technique='Coq proof about combinator model of the pyparsing grammar + extracted-model correspondence (dump text, parse value) + round-trip search',
    design='DESIGN.md §3 C01'),
